@@ -5,6 +5,7 @@ from fractions import Fraction as Fr
 from .common import fhex as _fhex, ints
 
 PROP_FILE = "Properties/C18.v"
+GEN = ["GenC18"]
 RUN_FILES = ["Model/C18_run.v"]
 
 EPS = Fr(0.02)            # masked_ints' epsilon, the exact binary64 value
@@ -92,7 +93,7 @@ def gen_areas(ctx):
           Area("eqc", (2.0 ** 20, 2.0 ** 21, 2.0 ** 21, 2.0 ** 22), 4, 8, "dyadic"),
           Area("eqc", (-2.0 ** 20, 2.0 ** 20, 2.0 ** 20, -2.0 ** 20), 8, 8, "dyadic-flipped-y")]
     sizes = [1, 2, 3, 5, 8, 13, 24, 40]
-    for _ in range(ctx.n(8, 60)):
+    for _ in range(ctx.n(8, 240)):
         crs = r.choice(list(CRS))
         w, h = r.choice(sizes), r.choice(sizes)
         if crs == "longlat":
@@ -281,7 +282,8 @@ def check_area_obs(ctx, a, ai, spec, obs, cases, agree):
                             {"area": spec, "module": key, "error": obs[key]["error"]})
             return
     per = observe(a, obs)
-    replay_pt = lambda i: {"area": spec, "lonlat": [obs["lons"][i], obs["lats"][i]]}
+    core = {k: spec[k] for k in ("proj", "extent", "w", "h")}
+    replay_pt = lambda i: {"area": core, "lonlat": [obs["lons"][i], obs["lats"][i]]}
     cells_by_point = [dict() for _ in range(npts)]
     for mod in ("area_index", "grid", "gridfilter", "bucket"):
         band = EPS if mod == "area_index" else Fr(0)
@@ -294,6 +296,8 @@ def check_area_obs(ctx, a, ai, spec, obs, cases, agree):
                 what = kind
                 if kind == "nonfinite_attributed" and mod == "area_index":
                     kind = "nan_unmasked"
+                if kind == "trunc_negative" and mod == "area_index":
+                    kind = "outside_attributed"
             if kind:
                 ctx.add_failure("C18.%s.%s" % (mod, kind),
                                 "%s attributes projected point (%r, %r) [lon/lat %r, %r] on %s area extent %s shape (%d, %d) to %s: %s; "
@@ -315,9 +319,11 @@ def check_area_obs(ctx, a, ai, spec, obs, cases, agree):
         kind = verdict(a, cell, x, y, band=EPS, tol=tol_for(a, x, y))
         if kind == "nonfinite_attributed":
             kind = "nan_unmasked"
+        if kind == "trunc_negative":
+            kind = "outside_attributed"
         if kind:
             ctx.add_failure("C18.area_index.%s" % kind, "get_array_indices_from_projection_coordinates(%r, %r) on extent %s shape (%d, %d) -> %s: %s"
-                            % (x, y, a.ext, a.h, a.w, cell, kind), {"area": spec, "xy": [m["x"][i], m["y"][i]], "module": "area_proj", "kind": kind})
+                            % (x, y, a.ext, a.h, a.w, cell, kind), {"area": core, "xy": [m["x"][i], m["y"][i]], "module": "area_proj", "kind": kind})
             continue
         ctx.case(("area_proj", ai, m["x"][i], m["y"][i]), nontrivial=category(a, x, y) != "interior")
         cases["area"].append("(%s, %s, %s, (%s, %d), (%s, %d))" % (an, fhex(x), fhex(y), b(m["cm"][i]), m["c"][i], b(m["rm"][i]), m["r"][i]))
@@ -327,6 +333,8 @@ def check_area_obs(ctx, a, ai, spec, obs, cases, agree):
         kind = "scalar_bad_index" if cell == "bad" else verdict(a, cell, x, y, band=EPS, tol=tol_for(a, x, y))
         if kind == "nonfinite_attributed" or (kind == "scalar_bad_index" and a.uv_of(x, y) is None):
             kind = "nan_unmasked"
+        if kind == "trunc_negative":
+            kind = "outside_attributed"
         if kind:
             ctx.add_failure("C18.area_index.%s" % kind, "scalar get_array_indices_from_lonlat(%r, %r) -> code %d (0 = ValueError) for projected (%r, %r): %s"
                             % (uh(obs["lons"][i]), uh(obs["lats"][i]), code, x, y, kind), dict(replay_pt(i), module="area_scalar", kind=kind))
@@ -366,7 +374,7 @@ def check_area_obs(ctx, a, ai, spec, obs, cases, agree):
     if ll_ok:
         if a.north_up and m["n"] < inside:
             ctx.add_failure("C18.ll2cr.count", "ll2cr counts %d points in grid but %d lie strictly inside the extent" % (m["n"], inside),
-                            {"area": spec, "module": "ll2cr_count", "n": m["n"], "inside": inside})
+                            {"area": dict(core, xy=spec.get("xy", []), lonlat=spec.get("lonlat", [])), "module": "ll2cr_count", "n": m["n"], "inside": inside})
         else:
             pts = "[" + "; ".join("(%s, %s)" % (fhex(uh(x)), fhex(uh(y))) for x, y in zip(m["x"], m["y"])) + "]"
             cases["ll_count"].append("(%s, %s, %d)" % (an, pts, m["n"]))
@@ -412,7 +420,8 @@ def check_area_obs(ctx, a, ai, spec, obs, cases, agree):
     if "icq" in obs:
         m = obs["icq"]
         if "error" in m:
-            ctx.add_failure("C18.grid.icq_exception", "ImageContainerQuick.resample raised %s" % m["error"], {"area": spec, "module": "icq"})
+            ctx.add_failure("C18.grid.icq_exception", "ImageContainerQuick.resample raised %s" % m["error"],
+                            {"area": dict(core, target=spec["target"], segments=spec.get("segments")), "module": "icq"})
         else:
             for j, (xh, yh, code, codem) in enumerate(zip(m["x"], m["y"], m["img"], m["imgm"])):
                 x, y = uh(xh), uh(yh)
@@ -426,7 +435,7 @@ def check_area_obs(ctx, a, ai, spec, obs, cases, agree):
                 if kind:
                     ctx.add_failure("C18.grid.%s" % kind, "ImageContainerQuick.resample: target pixel %d at projected (%r, %r) samples source cell %s of extent %s "
                                     "shape (%d, %d): %s" % (j, x, y, cell, a.ext, a.h, a.w, kind),
-                                    {"area": spec, "module": "icq", "pixel": j, "kind": kind})
+                                    {"area": dict(core, target=spec["target"], segments=spec.get("segments")), "module": "icq", "pixel": j, "kind": kind})
                     continue
                 cases["grid_img"].append("(%s, %s, %s, %d)" % (an, fhex(x), fhex(y), code))
 
@@ -502,9 +511,10 @@ def replay(ctx, data):
     if not spec:
         return True
     a = Area(next((k for k, v in CRS.items() if v == spec["proj"]), "longlat"), [uh(e) for e in spec["extent"]], spec["w"], spec["h"], "replay")
-    spec["xy"] = [case["xy"]] if "xy" in case else []
-    spec["lonlat"] = [case["lonlat"]] if "lonlat" in case else []
-    spec["scalar"] = [0] if spec["lonlat"] else []
+    if case.get("module") != "ll2cr_count":
+        spec["xy"] = [case["xy"]] if "xy" in case else []
+        spec["lonlat"] = [case["lonlat"]] if "lonlat" in case else []
+    spec["scalar"] = [0] if (spec.get("lonlat") and not spec.get("xy")) else []
     if case.get("module") != "icq":
         spec.pop("target", None)
     obs = ctx.impl("c18", {"areas": [spec]})["areas"][0]
